@@ -52,6 +52,16 @@ def flatten_outputs(res) -> List[np.ndarray]:
     return [np.asarray(v) for v in flat]
 
 
+def _plain(a: np.ndarray) -> np.ndarray:
+    """ml_dtypes floats (bfloat16, float8...) have dtype.kind 'V': widen exactly to float32."""
+    if a.dtype.kind == "V" or (a.dtype.kind not in "biufc" and "float" in str(a.dtype)):
+        try:
+            return a.astype(np.float32)
+        except Exception:
+            return a
+    return a
+
+
 def _as_pair(a: np.ndarray) -> np.ndarray:
     """complex -> trailing pair of reals"""
     if np.iscomplexobj(a):
@@ -67,8 +77,8 @@ def compare_outputs(ort_outs: Sequence[np.ndarray], j_outs: Sequence[np.ndarray]
     if len(ort_outs) != len(j_outs):
         return f"output count: model {len(ort_outs)} vs JAX {len(j_outs)}", float("inf")
     for i, (o, j) in enumerate(zip(ort_outs, j_outs)):
-        o = np.asarray(o)
-        j = np.asarray(j)
+        o = _plain(np.asarray(o))
+        j = _plain(np.asarray(j))
         jj = _as_pair(j)
         if o.shape != jj.shape:
             if np.iscomplexobj(j) and np.iscomplexobj(o) and o.shape == j.shape:
